@@ -27,6 +27,8 @@ use crate::*;
 pub mod record;
 
 mod error;
+#[cfg(feature = "verif_hooks")]
+pub mod hooked;
 pub mod local;
 mod protocol;
 #[cfg(feature = "sftp")]
